@@ -69,6 +69,8 @@ def jobs(tier):
         for base, free in gen.windows(3, "thorough"):
             for t in (1, 2):
                 add(side="gen", k=3, t=t, free=free, base=base)
+    base, free = gen.cycle_window3()
+    add(side="gen", k=3, t=1, free=free, base=base)
     for k in (3, 4):
         for base, free in gen.road_windows(k):
             add(side="gen", k=k, t=1, free=free, base=base)
